@@ -34,6 +34,134 @@ def is_any(v, alts):
     return any(v == a for a in alts)
 
 
+def windows_by_value(chk, repo, cfg, label, clause_b, clause_c, clause_i, fl0):
+    """The window contract of propagate_dft on values.  With the extent arithmetic (and the mask helpers) evaluated in
+    place, the three quantities that leave the bookkeeping - the shape handed to dft2, the shift handed to dft2 and the
+    offset of the output Field - are compared with what the specification gives for them:
+
+        W_out  = extent(shape*oversample, 0)            or the bounding box of the mask about floor(n/2)
+        W_prop = extent(prop_shape*oversample, fix(shift))
+        I      = W_out intersect W_prop
+        dft2.shape = size(I);  Field.offset = centre(I);  dft2.shift = centre(W_prop) - centre(I) + shift - fix(shift)
+    """
+    from .extent_rules import extent_inline
+    wf = repo.cls('wavefront.Wavefront')
+    inl = extent_inline(repo) + [k for k in ('propagate._mask_shape', 'propagate._mask_shift') if repo.has_func(k)]
+    f, paths, _ = analyse(repo, 'propagate.propagate_dft', config=cfg, types={('sym', 'wavefront'): wf}, inline=inl,
+                          max_paths=2048)
+    from ..rules import none_state
+    want_mask = cfg.get('mask') is not None and cfg.get('mask') != NONE
+    osf = S('oversample')
+    du = pair('pixelscale')
+    HALF = lambda x: nf.floor(x / 2)
+    n = 0
+    from .prop_flow import transform_events
+    for p in returns(paths):
+        evs = transform_events(p)
+        d2 = [e for e in evs if e.kind == 'call' and e.data.get('callee') == 'fourier.dft2']
+        if not d2 or (none_state(p, 'mask') is False) != want_mask:
+            continue
+        if any(pol and fmt(c).startswith('lt(len(') for c, pol, _ in p.conds):
+            continue            # array_extent's branch for shapes with fewer than two entries
+        n += 1
+        tag = f'{label}, by value' + (f', path {n}' if n > 1 else '')
+        ob = lambda role, ok, det, ev=None, cl=clause_b: chk.ob(cl, 'D-contract', f.key, f'{role} [{tag}]', ok, det,
+                                                                 f.loc(ev.node) if ev is not None else f.loc())
+        sh = [e for e in evs if e.kind == 'call' and e.data.get('callee') == 'field.Field.shift']
+        em = [e for e in evs if e.kind == 'call' and e.data.get('callee') == 'wavefront.Wavefront.empty']
+        fields = [e for e in evs if e.kind == 'call' and e.data.get('new') == 'field.Field']
+        if len(sh) != 1 or len(em) != 1 or len(fields) != 1 or len(d2) != 1:
+            chk.undecided(clause_b, 'D-contract', f.key, f'window bookkeeping [{tag}]',
+                          f'{len(sh)} Field.shift, {len(em)} Wavefront.empty, {len(fields)} Field, {len(d2)} dft2 call(s) on the path', f.loc())
+            continue
+        sb = sh[0].bound
+        ob('field shift evaluated for this propagation',
+           sb.get('z') == nf.attr(WF, 'focal_length') and is_any(sb.get('wavelength'), wf_attr('wavelength'))
+           and sb.get('pixelscale') == du and sb.get('oversample') == osf and sb.get('indexing') == Const('ij'),
+           ', '.join(f'{k}={fmt(v)}' for k, v in sb.items() if k != 'self'), sh[0])
+        shift = sh[0].result
+        fix = nf.app('fix', shift)
+        s_out = em[0].bound.get('shape')
+        comp = lambda v, k: v.items[k] if isinstance(v, Tup) else nf.index(v, C(k))
+        if cfg['prop_shape'] is not NONE:
+            ps = cfg['prop_shape']
+            p_out = Tup([ps.items[0] * osf, ps.items[1] * osf], 'vec')
+        else:
+            p_out = s_out           # prop_shape defaults to shape
+        if want_mask:
+            bnd = [e for e in evs if e.kind == 'call' and e.data.get('callee') == 'util.boundary'
+                   and nf.strip_apps(e.bound.get('x')) == S('mask')]
+            thr_ok = bool(bnd) and all((e.bound.get('threshold') is None or (isinstance(e.bound.get('threshold'), Poly)
+                                                                              and e.bound.get('threshold').is_zero())) for e in bnd)
+            if not bnd or not thr_ok:
+                ob('output window = bounding box of the mask', False if bnd else None,
+                   'boundary(mask) is taken with a non-zero threshold' if bnd else 'no boundary(mask) call on the path')
+                continue
+            bq = [nf.index(bnd[0].result, C(i)) for i in range(4)]
+            msh = nf.attr(S('mask'), 'shape')
+            lo_out = [bq[0] - HALF(nf.index(msh, C(0))), bq[2] - HALF(nf.index(msh, C(1)))]
+            hi_out = [bq[1] - HALF(nf.index(msh, C(0))), bq[3] - HALF(nf.index(msh, C(1)))]
+        else:
+            lo_out = [-HALF(comp(s_out, k)) for k in (0, 1)]
+            hi_out = [lo_out[k] + comp(s_out, k) - 1 for k in (0, 1)]
+        lo_prop = [-HALF(comp(p_out, k)) + nf.index(fix, C(k)) for k in (0, 1)]
+        hi_prop = [lo_prop[k] + comp(p_out, k) - 1 for k in (0, 1)]
+        i_lo = [nf.app('max', lo_out[k], lo_prop[k]) for k in (0, 1)]
+        i_hi = [nf.app('min', hi_out[k], hi_prop[k]) for k in (0, 1)]
+        i_n = [i_hi[k] - i_lo[k] + 1 for k in (0, 1)]
+        i_c = [i_lo[k] + HALF(i_n[k]) for k in (0, 1)]
+        p_c = [lo_prop[k] + HALF(comp(p_out, k)) for k in (0, 1)]
+        b = d2[0].bound
+        got_shape = b.get('shape')
+        ok_shape = isinstance(got_shape, Tup) and len(got_shape) == 2 and all(got_shape.items[k] == i_n[k] for k in (0, 1))
+        ob('transform evaluates the intersection of the output and propagation windows', ok_shape,
+           f'shape = {fmt(got_shape)[:200]}; expected ({fmt(i_n[0])[:120]}, ...)', d2[0])
+        got_off = fields[0].bound.get('offset')
+        ok_off = isinstance(got_off, Tup) and len(got_off) == 2 and all(got_off.items[k] == i_c[k] for k in (0, 1))
+        ob('output field sits at the centre of the intersection', ok_off,
+           f'offset = {fmt(got_off)[:200]}; expected ({fmt(i_c[0])[:120]}, ...)', fields[0])
+        got_shift = nf.strip_apps(b.get('shift'), ('copy', 'cast', 'asarray', 'array'))
+        want_shift = [p_c[k] - i_c[k] + nf.index(shift, C(k)) - nf.index(fix, C(k)) for k in (0, 1)]
+        def component(v, k):
+            """entry k of a pair to which a whole (row, col) vector was added: the vector contributes its entry k"""
+            if not isinstance(v, Poly):
+                return v
+            vec = {shift.single_atom(): nf.index(shift, C(k)), fix.single_atom(): nf.index(fix, C(k))}
+            out = nf.ZERO
+            for mono, c in v.terms:
+                t = Poly.const(c)
+                for a_, e_ in mono:
+                    t = t * (vec[a_] if a_ in vec else Poly.atom(a_)).pow(e_)
+                out = out + t
+            return out
+        if isinstance(got_shift, Tup) and len(got_shift) == 2:
+            ok_shift = all(component(nf.strip_apps(got_shift.items[k], ('copy', 'cast')), k) == want_shift[k] for k in (0, 1))
+        else:
+            whole = Tup([p_c[0] - i_c[0], p_c[1] - i_c[1]], 'vec')
+            ok_shift = None
+            for cand in (nf.app('copy', whole) + shift - fix, nf.P(whole) + shift - fix if hasattr(nf, 'P') else None):
+                if cand is not None and nf.strip_apps(got_shift) == nf.strip_apps(cand):
+                    ok_shift = True
+            if ok_shift is None:
+                # element-wise: (vector expression)[k]
+                try:
+                    ok_shift = all(nf.strip_apps(nf.index(got_shift, C(k))) == want_shift[k] for k in (0, 1))
+                except Exception:
+                    ok_shift = None
+        ob('transform shift = window recentring + sub-pixel part of the tilt shift', ok_shift,
+           f'shift = {fmt(b.get("shift"))[:200]}', d2[0], cl=clause_c)
+        if not want_mask:
+            chk.ob(clause_i, 'N-fold', f.key, f'un-masked output window is centred [{tag}]', bool(ok_shape and ok_off),
+                   'the transform window and the field offset are those of an output window centred on the origin'
+                   if ok_shape and ok_off else 'see the window obligations of this path', f.loc(d2[0].node))
+        if not want_mask and cfg['shape'] is not NONE:
+            shp = cfg['shape']
+            ob('output window has shape*oversample samples', s_out == Tup([shp.items[0] * osf, shp.items[1] * osf], 'vec'),
+               f'shape = {fmt(s_out)}', em[0])
+    if not n:
+        chk.undecided(clause_b, 'D-contract', f.key, f'window bookkeeping [{label}, by value]', 'no transforming path found', f.loc())
+
+
 def contracts(chk, repo, clause_b, clause_d, clause_e, clause_i, clause_conserve=None):
     for cfg, label0 in configs():
       for fl in DftFlow.all(repo, cfg, label0):
@@ -53,69 +181,80 @@ def contracts(chk, repo, clause_b, clause_d, clause_e, clause_i, clause_conserve
         ob('alpha from the wavelength', is_any(b.get('wavelength'), wf_attr('wavelength')),
            f'wavelength = {fmt(b.get("wavelength"))}', ea)
         ob('alpha from the oversampling factor', b.get('oversample') == osf, f'oversample = {fmt(b.get("oversample"))}', ea)
-        # --- extents / windows
-        ex = fl.extents
-        if len(ex) != 3:
-            raise AnalysisError(f'propagate_dft [{label}]: expected 3 array_extent calls, found {len(ex)}')
-        e_out, e_prop, e_int = ex
-        shift_ev = fl.one('field.Field.shift')
-        sb = shift_ev.bound
-        ob('field shift evaluated for this propagation',
-           sb.get('z') == nf.attr(WF, 'focal_length') and is_any(sb.get('wavelength'), wf_attr('wavelength'))
-           and sb.get('pixelscale') == du and sb.get('oversample') == osf and sb.get('indexing') == Const('ij'),
-           ', '.join(f'{k}={fmt(v)}' for k, v in sb.items() if k != 'self'), shift_ev)
-        shift = shift_ev.result
-        fix_shift = nf.app('fix', shift)
-        if 'mask' in label and 'no mask' not in label and not (fl.ev['propagate._mask_shape'] and fl.ev['propagate._mask_shift']):
-            # the helpers are gone (merged / inlined): compare the window itself with the bounding box of the mask
-            bnd = [e for e in fl.events if e.kind == 'call' and e.data.get('callee') == 'util.boundary'
-                   and nf.strip_apps(e.bound.get('x')) == S('mask')]
-            verdict, det_w = None, 'undecided: the window is not obtained through _mask_shape / _mask_shift nor from boundary(mask)'
-            if bnd:
-                bq = [nf.index(bnd[0].result, C(i)) for i in range(4)]
-                ms_ = nf.attr(nf.strip_apps(bnd[0].bound.get('x')), 'shape')
-                HALF = lambda x: nf.floor(x / 2)
-                want_shape = Tup([bq[1] - bq[0] + 1, bq[3] - bq[2] + 1])
-                want_shift = Tup([bq[0] + HALF(bq[1] - bq[0] + 1) - HALF(nf.index(ms_, C(0))),
-                                  bq[2] + HALF(bq[3] - bq[2] + 1) - HALF(nf.index(ms_, C(1)))])
-                gs, gh = e_out.bound['shape'], e_out.bound['shift']
-                same = isinstance(gs, Tup) and isinstance(gh, Tup) and list(gs.items) == list(want_shape.items) and \
-                    list(gh.items) == list(want_shift.items)
-                thr = bnd[0].bound.get('threshold')
-                verdict = bool(same) and (thr is None or (isinstance(thr, Poly) and thr.is_zero()))
-                det_w = f'array_extent({fmt(gs)[:100]}, {fmt(gh)[:100]})'
-            chk.ob(clause_b, 'D-contract', f.key, f'output window = bounding box of the mask [{label}]', verdict, det_w, f.loc(e_out.node))
-        elif 'mask' in label and 'no mask' not in label:
-            ms, mh = fl.one('propagate._mask_shape'), fl.one('propagate._mask_shift')
-            ob('output window = bounding box of the mask',
-               e_out.bound['shape'] == ms.result and e_out.bound['shift'] == mh.result
-               and ms.bound['x'] == S('mask') and mh.bound['x'] == S('mask'),
-               f'array_extent({fmt(e_out.bound["shape"])}, {fmt(e_out.bound["shift"])})', e_out)
-        else:
-            shp = cfg['shape'] if cfg['shape'] is not NONE else None
-            z0 = e_out.bound['shift']
-            zero = isinstance(z0, Tup) and len(z0) == 2 and all(isinstance(i, Poly) and i.is_zero() for i in z0.items)
-            chk.ob(clause_i, 'N-fold', f.key, f'un-masked output window is centred [{label}]', zero,
-                   f'array_extent(shape_out, shift={fmt(z0)})', f.loc(e_out.node))
-            if shp is not None:
-                ob('output window has shape*oversample samples',
-                   e_out.bound['shape'] == Tup([shp.items[0] * osf, shp.items[1] * osf], 'vec'),
-                   f'shape = {fmt(e_out.bound["shape"])}', e_out)
-        if cfg['prop_shape'] is not NONE:
-            ps = cfg['prop_shape']
-            ob('propagation window has prop_shape*oversample samples',
-               e_prop.bound['shape'] == Tup([ps.items[0] * osf, ps.items[1] * osf], 'vec'),
-               f'shape = {fmt(e_prop.bound["shape"])}', e_prop)
-        cc = clause_conserve or clause_b
-        ob('propagation window follows the integer part of the shift', e_prop.bound['shift'] == fix_shift,
-           f'shift = {fmt(e_prop.bound["shift"])}; expected {fmt(fix_shift)}', e_prop, cl=cc)
-        ish, isf = fl.one('extent.intersection_shape'), fl.one('extent.intersection_shift')
-        for e, nm in ((ish, 'intersection_shape'), (isf, 'intersection_shift'), (fl.one('extent.intersect'), 'intersect')):
-            ob(f'{nm} of the output and propagation windows',
-               {nf.vkey(e.bound['a']), nf.vkey(e.bound['b'])} == {nf.vkey(e_out.result), nf.vkey(e_prop.result)},
-               f'a = {fmt(e.bound["a"])[:80]}..., b = {fmt(e.bound["b"])[:80]}...', e)
-        ob('evaluated window = the intersection', e_int.bound['shape'] == ish.result and e_int.bound['shift'] == isf.result,
-           '', e_int)
+        structural = len(fl.extents) == 3 and all(len(fl.ev[n]) == 1 for n in
+                                                   ('extent.intersection_shape', 'extent.intersection_shift', 'extent.intersect', 'field.Field.shift'))
+        if not structural:
+            # the window bookkeeping is not written as three array_extent calls and the intersection helpers: decide the
+            # same contract on the values that reach dft2 and the output Field (extent arithmetic inlined)
+            windows_by_value(chk, repo, cfg, label, clause_b, clause_conserve or clause_b, clause_i, fl)
+            ed = fl.one('fourier.dft2')
+            b = ed.bound
+            shift_ev = fl.one('field.Field.shift')
+            sb = shift_ev.bound
+        if structural:
+            # --- extents / windows
+            ex = fl.extents
+            if len(ex) != 3:
+                raise AnalysisError(f'propagate_dft [{label}]: expected 3 array_extent calls, found {len(ex)}')
+            e_out, e_prop, e_int = ex
+            shift_ev = fl.one('field.Field.shift')
+            sb = shift_ev.bound
+            ob('field shift evaluated for this propagation',
+               sb.get('z') == nf.attr(WF, 'focal_length') and is_any(sb.get('wavelength'), wf_attr('wavelength'))
+               and sb.get('pixelscale') == du and sb.get('oversample') == osf and sb.get('indexing') == Const('ij'),
+               ', '.join(f'{k}={fmt(v)}' for k, v in sb.items() if k != 'self'), shift_ev)
+            shift = shift_ev.result
+            fix_shift = nf.app('fix', shift)
+            if 'mask' in label and 'no mask' not in label and not (fl.ev['propagate._mask_shape'] and fl.ev['propagate._mask_shift']):
+                # the helpers are gone (merged / inlined): compare the window itself with the bounding box of the mask
+                bnd = [e for e in fl.events if e.kind == 'call' and e.data.get('callee') == 'util.boundary'
+                       and nf.strip_apps(e.bound.get('x')) == S('mask')]
+                verdict, det_w = None, 'undecided: the window is not obtained through _mask_shape / _mask_shift nor from boundary(mask)'
+                if bnd:
+                    bq = [nf.index(bnd[0].result, C(i)) for i in range(4)]
+                    ms_ = nf.attr(nf.strip_apps(bnd[0].bound.get('x')), 'shape')
+                    HALF = lambda x: nf.floor(x / 2)
+                    want_shape = Tup([bq[1] - bq[0] + 1, bq[3] - bq[2] + 1])
+                    want_shift = Tup([bq[0] + HALF(bq[1] - bq[0] + 1) - HALF(nf.index(ms_, C(0))),
+                                      bq[2] + HALF(bq[3] - bq[2] + 1) - HALF(nf.index(ms_, C(1)))])
+                    gs, gh = e_out.bound['shape'], e_out.bound['shift']
+                    same = isinstance(gs, Tup) and isinstance(gh, Tup) and list(gs.items) == list(want_shape.items) and \
+                        list(gh.items) == list(want_shift.items)
+                    thr = bnd[0].bound.get('threshold')
+                    verdict = bool(same) and (thr is None or (isinstance(thr, Poly) and thr.is_zero()))
+                    det_w = f'array_extent({fmt(gs)[:100]}, {fmt(gh)[:100]})'
+                chk.ob(clause_b, 'D-contract', f.key, f'output window = bounding box of the mask [{label}]', verdict, det_w, f.loc(e_out.node))
+            elif 'mask' in label and 'no mask' not in label:
+                ms, mh = fl.one('propagate._mask_shape'), fl.one('propagate._mask_shift')
+                ob('output window = bounding box of the mask',
+                   e_out.bound['shape'] == ms.result and e_out.bound['shift'] == mh.result
+                   and ms.bound['x'] == S('mask') and mh.bound['x'] == S('mask'),
+                   f'array_extent({fmt(e_out.bound["shape"])}, {fmt(e_out.bound["shift"])})', e_out)
+            else:
+                shp = cfg['shape'] if cfg['shape'] is not NONE else None
+                z0 = e_out.bound['shift']
+                zero = isinstance(z0, Tup) and len(z0) == 2 and all(isinstance(i, Poly) and i.is_zero() for i in z0.items)
+                chk.ob(clause_i, 'N-fold', f.key, f'un-masked output window is centred [{label}]', zero,
+                       f'array_extent(shape_out, shift={fmt(z0)})', f.loc(e_out.node))
+                if shp is not None:
+                    ob('output window has shape*oversample samples',
+                       e_out.bound['shape'] == Tup([shp.items[0] * osf, shp.items[1] * osf], 'vec'),
+                       f'shape = {fmt(e_out.bound["shape"])}', e_out)
+            if cfg['prop_shape'] is not NONE:
+                ps = cfg['prop_shape']
+                ob('propagation window has prop_shape*oversample samples',
+                   e_prop.bound['shape'] == Tup([ps.items[0] * osf, ps.items[1] * osf], 'vec'),
+                   f'shape = {fmt(e_prop.bound["shape"])}', e_prop)
+            cc = clause_conserve or clause_b
+            ob('propagation window follows the integer part of the shift', e_prop.bound['shift'] == fix_shift,
+               f'shift = {fmt(e_prop.bound["shift"])}; expected {fmt(fix_shift)}', e_prop, cl=cc)
+            ish, isf = fl.one('extent.intersection_shape'), fl.one('extent.intersection_shift')
+            for e, nm in ((ish, 'intersection_shape'), (isf, 'intersection_shift'), (fl.one('extent.intersect'), 'intersect')):
+                ob(f'{nm} of the output and propagation windows',
+                   {nf.vkey(e.bound['a']), nf.vkey(e.bound['b'])} == {nf.vkey(e_out.result), nf.vkey(e_prop.result)},
+                   f'a = {fmt(e.bound["a"])[:80]}..., b = {fmt(e.bound["b"])[:80]}...', e)
+            ob('evaluated window = the intersection', e_int.bound['shape'] == ish.result and e_int.bound['shift'] == isf.result,
+               '', e_int)
         # --- transform
         ed = fl.one('fourier.dft2')
         b = ed.bound
@@ -125,27 +264,30 @@ def contracts(chk, repo, clause_b, clause_d, clause_e, clause_i, clause_conserve
         ob('transform input is the field data', field_atom is not None and field_atom == sb.get('self'),
            f'f = {fmt(fld)}', ed)
         ob('transform sampling is alpha', b.get('alpha') == ea.result, f'alpha = {fmt(b.get("alpha"))[:100]}', ed)
-        ob('transform evaluates the intersection window', b.get('shape') == ish.result, f'shape = {fmt(b.get("shape"))[:100]}', ed)
+        if structural:
+            ob('transform evaluates the intersection window', b.get('shape') == ish.result, f'shape = {fmt(b.get("shape"))[:100]}', ed)
         ob('sub-array offset reaches the transform',
            field_atom is not None and b.get('offset') == nf.attr(field_atom, 'offset'), f'offset = {fmt(b.get("offset"))}', ed)
         ob('transform is unitary', b.get('unitary') == TRUE, f'unitary = {fmt(b.get("unitary"))}', ed)
-        centers = fl.ev['extent.array_center']
-        c_prop = [c for c in centers if c.bound['extent'] == e_prop.result]
-        c_int = [c for c in centers if c.bound['extent'] == e_int.result]
-        want_shift = None
-        if len(c_prop) == 1 and len(c_int) == 1:
-            prop_shift = nf.app('copy', c_prop[0].result) - nf.app('copy', c_int[0].result)
-            want_shift = prop_shift + shift - fix_shift
-        ob('transform shift = window recentring + sub-pixel part of the tilt shift',
-           want_shift is not None and nf.strip_apps(b.get('shift')) == nf.strip_apps(want_shift),
-           f'shift = {fmt(b.get("shift"))[:160]}', ed, cl=cc)
+        if structural:
+            centers = fl.ev['extent.array_center']
+            c_prop = [c for c in centers if c.bound['extent'] == e_prop.result]
+            c_int = [c for c in centers if c.bound['extent'] == e_int.result]
+            want_shift = None
+            if len(c_prop) == 1 and len(c_int) == 1:
+                prop_shift = nf.app('copy', c_prop[0].result) - nf.app('copy', c_int[0].result)
+                want_shift = prop_shift + shift - fix_shift
+            ob('transform shift = window recentring + sub-pixel part of the tilt shift',
+               want_shift is not None and nf.strip_apps(b.get('shift')) == nf.strip_apps(want_shift),
+               f'shift = {fmt(b.get("shift"))[:160]}', ed, cl=cc)
         # --- output field
         if len(fl.fields) != 1:
             raise AnalysisError(f'propagate_dft [{label}]: expected one Field to be built per input field')
         fb = fl.fields[0].bound
         ob('output field holds the transform', fb.get('data') == ed.result, '', fl.fields[0])
-        ob('output field sits at the intersection shift', fb.get('offset') == isf.result,
-           f'offset = {fmt(fb.get("offset"))[:100]}', fl.fields[0])
+        if structural:
+            ob('output field sits at the intersection shift', fb.get('offset') == isf.result,
+               f'offset = {fmt(fb.get("offset"))[:100]}', fl.fields[0])
         ob('output field sampling = du/oversample', fb.get('pixelscale') == du_os,
            f'pixelscale = {fmt(fb.get("pixelscale"))}', fl.fields[0])
         # --- metadata
